@@ -47,9 +47,12 @@ Proof. unfold proj. cbn. intros H. apply N.eqb_neq in H. rewrite H. reflexivity.
 
 Definition sumf (g : N -> nat) (l : list N) : nat := fold_right (fun x a => (g x + a)%nat) 0%nat l.
 
+Lemma sumf_cons g a l : sumf g (a :: l) = (g a + sumf g l)%nat.
+Proof. reflexivity. Qed.
+
 Lemma sumf_same g g' l : (forall x, In x l -> g' x = g x) -> sumf g' l = sumf g l.
 Proof.
-  induction l as [|a l IH]; cbn; intros H; [reflexivity|].
+  induction l as [|a l IH]; intros H; [reflexivity|]. rewrite !sumf_cons.
   rewrite H by (left; reflexivity). rewrite IH; [reflexivity|]. intros x Hx. apply H. right. exact Hx.
 Qed.
 
@@ -57,7 +60,7 @@ Lemma sumf_change g g' l k :
   NoDup l -> In k l -> (forall x, x <> k -> g' x = g x) ->
   (sumf g' l + g k = sumf g l + g' k)%nat.
 Proof.
-  induction l as [|a l IH]; cbn; intros Hnd Hin H; [contradiction|].
+  induction l as [|a l IH]; intros Hnd Hin H; [destruct Hin|]. rewrite !sumf_cons.
   inversion Hnd as [|? ? Hn Hnd']; subst. destruct (N.eq_dec a k) as [->|Hne].
   - rewrite (sumf_same g g' l); [lia|]. intros x Hx. apply H. intros ->. contradiction.
   - destruct Hin as [->|Hin]; [congruence|]. rewrite (H a Hne). specialize (IH Hnd' Hin H). lia.
@@ -102,6 +105,9 @@ Proof.
   - intros p l [].
 Qed.
 
+Ltac st := cbn [rem fslot fclosed cur lclosed vslot processed vclosed done].
+Ltac norm := rewrite <- ?app_assoc; cbn [app].
+
 Ltac inv_step H := match type of H with Some _ = Some _ => inversion H; subst; clear H end.
 
 Lemma step_inv s e s' : Inv s -> step s e = Some s' -> Inv s'.
@@ -110,38 +116,37 @@ Proof.
   - (* Emit *)
     destruct (rem s f) as [|x r] eqn:R; [discriminate|]. destruct (fslot s f) eqn:Fs; [discriminate|].
     destruct (mem f files && negb (fclosed s f)) eqn:G; [|discriminate]. apply andb_true_iff in G as [G1 G2].
-    apply mem_In in G1. apply negb_true_iff in G2. inv_step H. constructor; cbn; auto.
-    + intros p g Hp. specialize (IC p g Hp). unfold Bof, Dof in *. cbn.
+    apply mem_In in G1. apply negb_true_iff in G2. inv_step H. constructor; st; auto.
+    + intros p g Hp. specialize (IC p g Hp). unfold Bof, Dof in *. st.
       destruct (N.eq_dec g f) as [->|Hne].
-      * rewrite !upd_same. rewrite R, Fs in IC. cbn in *. exact IC.
+      * rewrite !upd_same. rewrite R, Fs in IC. cbv beta iota in *. rewrite <- IC. norm. reflexivity.
       * rewrite !upd_other by exact Hne. exact IC.
     + intros g Hg. destruct (N.eq_dec g f) as [->|Hne]; [congruence|]. rewrite !upd_other by exact Hne. auto.
     + intros g y. destruct (N.eq_dec g f) as [->|Hne]; [auto|]. rewrite upd_other by exact Hne. apply IFs.
   - (* Forward *)
     destruct (fslot s f) as [x|] eqn:Fs; [|discriminate]. destruct (cur s) eqn:Cu; [discriminate|].
-    inv_step H. pose proof (IFs _ _ Fs) as Hf. constructor; cbn; auto.
-    + intros p g Hp. specialize (IC p g Hp). unfold Bof, Dof in *. cbn in *. rewrite Cof_mk_cur.
-      apply mem_In in Hp. rewrite Hp. rewrite app_nil_r in IC.
+    inv_step H. pose proof (IFs _ _ Fs) as Hf. constructor; st; auto.
+    + intros p g Hp. specialize (IC p g Hp). unfold Bof, Dof in *. st. rewrite Cof_mk_cur.
+      apply mem_In in Hp. rewrite Hp. cbn [Cof] in IC. rewrite app_nil_r in IC.
       rewrite !proj_app in *. destruct (N.eq_dec g f) as [->|Hne].
-      * rewrite upd_same. rewrite Fs in IC. rewrite proj_one_same. cbn in *. rewrite <- !app_assoc. cbn. rewrite <- app_assoc in IC. exact IC.
+      * rewrite upd_same. rewrite Fs in IC. cbv beta iota in *. rewrite proj_one_same. rewrite <- IC. norm. reflexivity.
       * rewrite upd_other by exact Hne. rewrite proj_one_other by congruence. rewrite app_nil_r. exact IC.
     + intros l pend Hm. destruct progs as [|a l0] eqn:Pg; [discriminate|]. cbn in Hm. inversion Hm; subst.
       repeat split; auto; discriminate.
     + intros g Hg. destruct (IF g Hg) as [A B]. destruct (N.eq_dec g f) as [->|Hne]; [congruence|].
       rewrite upd_other by exact Hne. auto.
     + intros p Hp. destruct (IV p Hp) as [A _]. exfalso. specialize (IL A f Hf). destruct (IF f IL). congruence.
-    + intros Hd. destruct (ID Hd) as [A _]. exfalso. specialize (IL A f Hf). destruct (IF f IL). congruence.
     + intros g y. destruct (N.eq_dec g f) as [->|Hne]; [rewrite upd_same; discriminate|]. rewrite upd_other by exact Hne. apply IFs.
   - (* FanOut *)
     destruct (cur s) as [[l pend]|] eqn:Cu; [|discriminate].
     destruct (mem p0 pend && is_none (vslot s p0)) eqn:G; [|discriminate]. apply andb_true_iff in G as [G1 G2].
     apply mem_In in G1. destruct (vslot s p0) eqn:Vs; [discriminate|].
-    destruct (ICu _ _ eq_refl) as [Hne [Hnd [Hsub Hfl]]]. inv_step H. constructor; cbn; auto.
-    + intros p g Hp. specialize (IC p g Hp). unfold Bof, Dof in *. cbn in *. rewrite Cof_mk_cur.
+    destruct (ICu _ _ eq_refl) as [Hne [Hnd [Hsub Hfl]]]. inv_step H. constructor; st; auto.
+    + intros p g Hp. specialize (IC p g Hp). unfold Bof, Dof in *. st. rewrite Cof_mk_cur. cbn [Cof] in IC.
       destruct (N.eq_dec p p0) as [->|Hpe].
       * rewrite upd_same. rewrite Vs in IC. assert (M : mem p0 pend = true) by (apply mem_In; exact G1).
         rewrite M in IC. assert (M' : mem p0 (rm p0 pend) = false) by (apply mem_false; intros X; apply rm_In in X as [_ X]; congruence).
-        rewrite M'. cbn in *. rewrite app_nil_r. exact IC.
+        rewrite M'. cbv beta iota in *. rewrite <- IC. rewrite app_nil_r. cbn [app]. reflexivity.
       * rewrite upd_other by exact Hpe.
         assert (M : mem p (rm p0 pend) = mem p pend).
         { destruct (mem p pend) eqn:E.
@@ -158,10 +163,10 @@ Proof.
       rewrite upd_other by exact Hpe. apply IVs.
   - (* Process *)
     destruct (vslot s p0) as [l|] eqn:Vs; [|discriminate]. inv_step H.
-    destruct (IVs _ _ Vs) as [Hp0 Hl]. constructor; cbn; auto.
-    + intros p g Hp. specialize (IC p g Hp). unfold Bof, Dof in *. cbn in *.
+    destruct (IVs _ _ Vs) as [Hp0 Hl]. constructor; st; auto.
+    + intros p g Hp. specialize (IC p g Hp). unfold Bof, Dof in *. st.
       destruct (N.eq_dec p p0) as [->|Hpe].
-      * rewrite !upd_same. rewrite Vs in IC. cbn in *. rewrite <- app_assoc. cbn. exact IC.
+      * rewrite !upd_same. rewrite Vs in IC. cbv beta iota in *. rewrite <- IC. norm. reflexivity.
       * rewrite !upd_other by exact Hpe. exact IC.
     + intros Hd. destruct (ID Hd) as [A B]. split; [exact A|]. intros p Hp. destruct (B p Hp) as [X Y]. split; [exact X|].
       destruct (N.eq_dec p p0) as [->|Hpe]; [apply upd_same|rewrite upd_other by exact Hpe; exact Y].
@@ -170,28 +175,25 @@ Proof.
       intros Hin. apply in_app_or in Hin as [Hin|[<-|[]]]; [eapply IP; eauto|exact Hl].
   - (* CloseStream *)
     destruct (rem s f) eqn:R; [|discriminate]. destruct (fslot s f) eqn:Fs; [discriminate|].
-    destruct (mem f files && negb (fclosed s f)) eqn:G; [|discriminate]. inv_step H. constructor; cbn; auto.
+    destruct (mem f files && negb (fclosed s f)) eqn:G; [|discriminate]. inv_step H. constructor; st; auto.
     + intros g Hg. destruct (N.eq_dec g f) as [->|Hne]; [auto|]. rewrite upd_other in Hg by exact Hne. auto.
     + intros Hl g Hg. destruct (N.eq_dec g f) as [->|Hne]; [apply upd_same|rewrite upd_other by exact Hne; auto].
   - (* CloseLines *)
     destruct (forallb (fclosed s) files && negb (lclosed s)) eqn:G; [|discriminate]. apply andb_true_iff in G as [G1 G2].
-    inv_step H. constructor; cbn; auto.
+    inv_step H. constructor; st; auto.
     + intros _ g Hg. rewrite forallb_forall in G1. auto.
     + intros p Hp. destruct (IV p Hp) as [A B]. apply negb_true_iff in G2. congruence.
     + intros Hd. destruct (ID Hd) as [A B]. apply negb_true_iff in G2. congruence.
   - (* CloseVM *)
     destruct (lclosed s && is_none (cur s) && mem p0 progs && negb (vclosed s p0)) eqn:G; [|discriminate].
     apply andb_true_iff in G as [G G4]. apply andb_true_iff in G as [G G3]. apply andb_true_iff in G as [G1 G2].
-    destruct (cur s) eqn:Cu; [discriminate|]. inv_step H. constructor; cbn; auto.
-    + rewrite Cu. exact IC.
-    + rewrite Cu. discriminate.
-    + intros p Hp. rewrite Cu. auto.
+    destruct (cur s) eqn:Cu; [discriminate|]. inv_step H. constructor; st; auto.
     + intros Hd. destruct (ID Hd) as [A B]. split; [exact A|]. intros p Hp. destruct (B p Hp) as [X Y]. split; [|exact Y].
       destruct (N.eq_dec p p0) as [->|Hpe]; [apply upd_same|rewrite upd_other by exact Hpe; exact X].
   - (* Done *)
     destruct (forallb (vclosed s) progs && forallb (fun p => is_none (vslot s p)) progs && lclosed s && negb (done s)) eqn:G; [|discriminate].
     apply andb_true_iff in G as [G G4]. apply andb_true_iff in G as [G G3]. apply andb_true_iff in G as [G1 G2].
-    inv_step H. constructor; cbn; auto.
+    inv_step H. constructor; st; auto.
     intros _. split; [exact G3|]. intros p Hp. rewrite forallb_forall in G1, G2. split; [auto|].
     specialize (G2 p Hp). destruct (vslot s p); [discriminate|reflexivity].
 Qed.
@@ -237,9 +239,12 @@ Definition gC (s : state) : nat := match cur s with Some (_, pend) => (2 * lengt
 
 Lemma rank_eq s : rank s = (sumf (gF s) files + gC s + sumf (gP s) progs + b2n (lclosed s) + b2n (done s))%nat.
 Proof.
-  unfold Pipeline.rank, gC. f_equal. f_equal. f_equal. f_equal.
-  - unfold sumf, gF. induction files as [|a l IH]; cbn; [reflexivity|]. rewrite IH. lia.
-  - unfold sumf, gP. induction progs as [|a l IH]; cbn; [reflexivity|]. rewrite IH. lia.
+  unfold Pipeline.rank, gC.
+  assert (A : forall l, fold_right (fun f a => (length (rem s f) * (2 + 2 * length progs) + o2n (fslot s f) (1 + 2 * length progs) + b2n (fclosed s f) + a)%nat) 0%nat l = sumf (gF s) l).
+  { induction l as [|a l IH]; [reflexivity|]. rewrite sumf_cons. cbn [fold_right]. rewrite IH. reflexivity. }
+  assert (B : forall l, fold_right (fun p a => (o2n (vslot s p) 1 + b2n (vclosed s p) + a)%nat) 0%nat l = sumf (gP s) l).
+  { induction l as [|a l IH]; [reflexivity|]. rewrite sumf_cons. cbn [fold_right]. rewrite IH. reflexivity. }
+  rewrite A, B. reflexivity.
 Qed.
 
 Theorem rank_decreases s e s' : Inv s -> step s e = Some s' -> (rank s' < rank s)%nat.
